@@ -1306,6 +1306,113 @@ pub static C02: PropDef = PropDef {
     extra: None,
 };
 
+// ---- C04 real-signal anchors: the kernel, not the simulation, calls the library's handler
+static ANCHOR_SEQ: AtomicU32 = AtomicU32::new(0);
+static ANCHOR_PRIOR_AT: [AtomicU32; 8] = [const { AtomicU32::new(0) }; 8];
+static ANCHOR_ACTION_AT: [AtomicU32; 8] = [const { AtomicU32::new(0) }; 8];
+static ANCHOR_PRIOR_INFO: std::sync::atomic::AtomicUsize = std::sync::atomic::AtomicUsize::new(0);
+static ANCHOR_ACTION_INFO: std::sync::atomic::AtomicUsize = std::sync::atomic::AtomicUsize::new(0);
+static ANCHOR_PRIOR_SIG: std::sync::atomic::AtomicI32 = std::sync::atomic::AtomicI32::new(0);
+static ANCHOR_ROUND: AtomicU32 = AtomicU32::new(0);
+
+extern "C" fn anchor_prior1(sig: c_int) {
+    let r = ANCHOR_ROUND.load(Ordering::SeqCst) as usize % 8;
+    ANCHOR_PRIOR_AT[r].store(ANCHOR_SEQ.fetch_add(1, Ordering::SeqCst) + 1, Ordering::SeqCst);
+    ANCHOR_PRIOR_SIG.store(sig, Ordering::SeqCst);
+}
+
+extern "C" fn anchor_prior3(sig: c_int, info: *mut siginfo_t, _ctx: *mut c_void) {
+    let r = ANCHOR_ROUND.load(Ordering::SeqCst) as usize % 8;
+    ANCHOR_PRIOR_AT[r].store(ANCHOR_SEQ.fetch_add(1, Ordering::SeqCst) + 1, Ordering::SeqCst);
+    ANCHOR_PRIOR_SIG.store(if info.is_null() { -1 } else { unsafe { (*info).si_signo } } * 1000 + sig, Ordering::SeqCst);
+    ANCHOR_PRIOR_INFO.store(info as usize, Ordering::SeqCst);
+}
+
+fn anchor_case(prior_siginfo: bool, action_siginfo: bool, sig: c_int, rounds: u32) -> CaseReport {
+    let (recs, end) = crate::forkrun::fork_stream(10_000, move |fd| {
+        crate::vsched::install();
+        unsafe {
+            let mut sa: libc::sigaction = std::mem::zeroed();
+            if prior_siginfo {
+                sa.sa_sigaction = anchor_prior3 as usize;
+                sa.sa_flags = libc::SA_SIGINFO;
+            } else {
+                sa.sa_sigaction = anchor_prior1 as usize;
+            }
+            libc::sigaction(sig, &sa, std::ptr::null_mut());
+            let r = if action_siginfo {
+                registry::register_sigaction(sig, |info: &siginfo_t| {
+                    let r = ANCHOR_ROUND.load(Ordering::SeqCst) as usize % 8;
+                    ANCHOR_ACTION_AT[r].store(ANCHOR_SEQ.fetch_add(1, Ordering::SeqCst) + 1, Ordering::SeqCst);
+                    ANCHOR_ACTION_INFO.store(info as *const siginfo_t as usize, Ordering::SeqCst);
+                })
+            } else {
+                registry::register(sig, || {
+                    let r = ANCHOR_ROUND.load(Ordering::SeqCst) as usize % 8;
+                    ANCHOR_ACTION_AT[r].store(ANCHOR_SEQ.fetch_add(1, Ordering::SeqCst) + 1, Ordering::SeqCst);
+                })
+            };
+            if r.is_err() {
+                crate::forkrun::emit(fd, &json!({"k": "infra"}));
+                return;
+            }
+        }
+        for round in 0..rounds {
+            ANCHOR_ROUND.store(round, Ordering::SeqCst);
+            let before = ANCHOR_SEQ.load(Ordering::SeqCst);
+            unsafe { libc::raise(sig) };
+            let after = ANCHOR_SEQ.load(Ordering::SeqCst);
+            crate::forkrun::emit(
+                fd,
+                &json!({"k": "round", "calls": after - before, "prior_at": ANCHOR_PRIOR_AT[round as usize % 8].load(Ordering::SeqCst), "action_at": ANCHOR_ACTION_AT[round as usize % 8].load(Ordering::SeqCst),
+                    "prior_sig": ANCHOR_PRIOR_SIG.load(Ordering::SeqCst), "prior_info": ANCHOR_PRIOR_INFO.load(Ordering::SeqCst), "action_info": ANCHOR_ACTION_INFO.load(Ordering::SeqCst)}),
+            );
+        }
+        crate::forkrun::emit(fd, &json!({"k": "done"}));
+    });
+    let mut rep = CaseReport::default();
+    rep.class("real-signal-anchor");
+    rep.nontrivial = true;
+    rep.nontrivial_by = vec![("C04".into(), true)];
+    rep.hash = hash_of(&("anchor", prior_siginfo, action_siginfo, sig));
+    rep.sample = Some(json!({"anchor": {"prior_siginfo": prior_siginfo, "action_siginfo": action_siginfo, "signal": sig}, "records": recs, "end": format!("{:?}", end)}));
+    if end != crate::forkrun::End::Exited(0) || !recs.iter().any(|r| r["k"] == "done") {
+        rep.inconclusive = Some(format!("anchor probe ended {:?}", end));
+        return rep;
+    }
+    for r in recs.iter().filter(|r| r["k"] == "round") {
+        if r["calls"] != 2 {
+            rep.viol("C04/foreign-calls=x", format!("real delivery of signal {}: pre-existing handler + action were called {} times in total (expected 2)", sig, r["calls"]));
+        }
+        if r["prior_at"].as_u64() >= r["action_at"].as_u64() {
+            rep.viol("C04/foreign-after-action", format!("real delivery of signal {}: the pre-existing handler ran after the action", sig));
+        }
+        let want = if prior_siginfo { sig as i64 * 1000 + sig as i64 } else { sig as i64 };
+        if r["prior_sig"].as_i64() != Some(want) {
+            rep.viol("C04/args", format!("real delivery of signal {}: the pre-existing handler saw signal/info {} (expected {})", sig, r["prior_sig"], want));
+        }
+        if prior_siginfo && action_siginfo && r["prior_info"] != r["action_info"] {
+            rep.viol("C04/args", format!("real delivery of signal {}: pre-existing handler and action received different info pointers", sig));
+        }
+    }
+    rep
+}
+
+fn c04_extra(def: &PropDef, _args: &WorkerArgs, report: &mut WorkerReport) {
+    let known = Known::load();
+    for ps in [false, true] {
+        for asi in [false, true] {
+            for sig in [libc::SIGUSR1, libc::SIGHUP, 64] {
+                let rep = anchor_case(ps, asi, sig, 3);
+                if let Some(v) = report.absorb(def, &rep, &known) {
+                    report.violation = Some((v.key, v.msg, json!({"anchor": [ps, asi, sig]})));
+                    return;
+                }
+            }
+        }
+    }
+}
+
 pub static C04: PropDef = PropDef {
     id: "C04",
     prefixes: &["C04/"],
@@ -1315,7 +1422,7 @@ pub static C04: PropDef = PropDef {
     shrink_iters: 600,
     worker: w04,
     replay,
-    extra: None,
+    extra: Some(c04_extra),
 };
 
 pub static C18: PropDef = PropDef {
